@@ -26,13 +26,14 @@ def _all_slices(sl) -> bool:
     return all(isinstance(i, ast.Slice) for i in items)
 
 
-PASS_METHODS = {"contiguous", "clone", "long", "detach", "to", "int", "float", "unsqueeze", "expand", "view", "squeeze",
+PASS_METHODS = {"contiguous", "clone", "long", "detach", "to", "int", "float", "item", "unsqueeze", "expand", "view", "squeeze",
                 "expand_as", "reshape", "flatten"}
 
 
 class Extractor:
     def __init__(self, rd: ReachingDefs, leaf_of_def: Callable, leaf_of_expr: Callable = None, max_depth: int = 25,
                  term_hook: Callable = None, cond_hook: Callable = None):
+        self.row_level = False  # treat X.max() / X.min() over the batch as the row's own X (single-row necessary condition)
         self.index_leaf = None  # set to a leaf name to turn torch.arange(a, b, c) into a + k * c with k < (b - a) / c
         self.term_hook = term_hook  # (expr, extractor, depth) -> term or None
         self.cond_hook = cond_hook
@@ -130,6 +131,12 @@ class Extractor:
             if cstr not in self.constraints:
                 self.constraints.append(cstr)
             return el
+        if isinstance(e, ast.Call) and call_name(e) in ("int", "float") and len(e.args) == 1 and not e.keywords:
+            return self.term(e.args[0], depth + 1)
+        if isinstance(e, ast.Call) and self.row_level and isinstance(e.func, ast.Attribute) and e.func.attr in ("max", "min") \
+                and not e.args and not e.keywords:
+            # batch-wide extreme of a per-row quantity, seen from one row: at least / at most the row's own value
+            return self.term(e.func.value, depth + 1)
         if isinstance(e, ast.Call):
             cn = call_name(e)
             if cn in ("torch.min", "torch.minimum", "min") and len(e.args) == 2:
